@@ -15,6 +15,28 @@ BACKENDS = ('mp', 'dill_mp', 'multiprocessing', 'concurrent_mp')
 
 
 def run_case(sc, timeout=120):
+    """A case that does not finish within `timeout` is run a second time with
+    four times the limit before it is reported as a hang: the limit is wall
+    clock, and a machine that is busy with other work must not turn into a
+    verdict about the library."""
+    r = _run_case(sc, timeout)
+    if r.get('timeout'):
+        r = _run_case(sc, 4 * timeout)
+        if r.get('timeout'):
+            r['timeouts'] = [timeout, 4 * timeout]
+    return r
+
+
+def run_child(argv, timeout, **kw):
+    """subprocess.run with the same rule: a second attempt with four times
+    the limit before a TimeoutExpired is passed on."""
+    try:
+        return subprocess.run(argv, timeout=timeout, **kw)
+    except subprocess.TimeoutExpired:
+        return subprocess.run(argv, timeout=4 * timeout, **kw)
+
+
+def _run_case(sc, timeout):
     tmp = tempfile.mkdtemp(prefix='verif_pp_')
     try:
         sc = dict(sc)
